@@ -3,6 +3,7 @@
 package driver
 
 import (
+	"encoding/json"
 	"flag"
 	"fmt"
 	"os"
@@ -27,7 +28,22 @@ func Main(defs []PropDef) {
 	prop := flag.String("prop", "all", "property id (C01..C20), comma list, or all")
 	tier := flag.String("tier", "quick", "quick|thorough")
 	verbose := flag.Bool("v", false, "print every obligation")
+	describe := flag.Bool("describe", false, "print the rule-set descriptions as JSON and exit")
 	flag.Parse()
+	if *describe {
+		type d struct {
+			ID, Explanation, NotDecided string
+			Trusted                     []string
+		}
+		var out []d
+		sort.Slice(defs, func(i, j int) bool { return defs[i].ID < defs[j].ID })
+		for _, x := range defs {
+			out = append(out, d{x.ID, x.Explanation, x.NotDecided, x.Trusted})
+		}
+		b, _ := json.MarshalIndent(out, "", " ")
+		fmt.Println(string(b))
+		return
+	}
 	if t := os.Getenv("VERIF_TIER"); t != "" && *tier == "" {
 		*tier = t
 	}
@@ -81,6 +97,12 @@ func Main(defs []PropDef) {
 			}()
 			d.Run(c)
 		}()
+		if *tier == "thorough" && os.Getenv("RS_NO_SELFTEST") == "" {
+			sens := Sensitivity(d.ID)
+			c.Extra = map[string]interface{}{"sensitivity": sens}
+			fmt.Printf("%s: sensitivity pass: %v variants, %v detected, %v missed, %v equivalent silent, %v equivalent false alarms, %v skipped\n",
+				d.ID, sens["variants"], sens["detected"], sens["missed"], sens["equiv_silent"], sens["equiv_false_alarm"], sens["skipped"])
+		}
 		res := c.Finish(known, t0, d.Explanation, d.NotDecided, d.Trusted)
 		pass := 0
 		for _, o := range c.Obs {
